@@ -17,7 +17,9 @@ Representation
 * the DFT-domain temporaries are `Hal.Buf`s, so that `set_size` has its exact meaning: limbs beyond
   the active size are *not* written and become visible again when the size grows.  The initial
   content of the `res_dft` scratch buffer is a parameter (`res0`): `glwe_external_product` zeroes
-  it, `Cmux`/`Cswap` do not (it is whatever the scratch arena holds).
+  it, `Cmux`/`Cswap` do not (it is whatever the scratch arena holds).  Since poulpy d3c2e96 the
+  `dsize > 1` loop zeroes the limbs its first pass skips, so `res0` no longer influences the result
+  (before that commit it did for `dsize ≥ 3`: see docs/C04.md).
 * the big accumulator is `i64` on the FFT64 back ends and `i128` on the NTT120 ones: `big128`
   selects the normalisation / addition kernels (they agree whenever nothing wraps).
 -/
@@ -58,6 +60,13 @@ def dftApplyAll (step off : Nat) (d : Hal.Buf) (a : Hal.Buf) : Hal.Buf :=
 def dftAddAssignAll (d : Hal.Buf) (t : Hal.Buf) : Hal.Buf :=
   (List.range d.cols).foldl (fun acc j => Hal.opAssign Hal.polyAdd acc j t j) d
 
+/-- `res.set_size(full); for col { for j in written..full { res.zero_at(col, j) } }` (poulpy d3c2e96: the
+limbs skipped by the `di = 0` product start from zero) -/
+def zeroTail (b : Hal.Buf) (written full : Nat) : Hal.Buf :=
+  let b' := { b with size := full }
+  (List.range b'.cols).foldl (fun (acc : Hal.Buf) c =>
+    acc.setAct c ((acc.act c).take written ++ List.replicate (full - written) (Hal.zeroP acc.n))) b'
+
 /-- one pass `di` of the `dsize > 1` loop of `glwe_external_product_internal`; state = `(res_dft, res_dft_tmp)` -/
 def epDigitPass (a : Hal.Buf) (g : GGSW) (aSize : Nat) (st : Hal.Buf × Hal.Buf) (di : Nat) : Hal.Buf × Hal.Buf :=
   let cols := g.rank + 1
@@ -69,7 +78,7 @@ def epDigitPass (a : Hal.Buf) (g : GGSW) (aSize : Nat) (st : Hal.Buf × Hal.Buf)
   let resDft := { st.1 with size := g.size - (dsize - di - 2) }
   let aDft := dftApplyAll dsize (dsize - 1 - di) aDft1 a
   if di = 0 then
-    (Hal.opVmp resDft aDft g.toPMat 0, st.2)
+    (zeroTail (Hal.opVmp resDft aDft g.toPMat 0) resDft.size g.size, st.2)
   else
     let tmp := { st.2 with size := resDft.size }
     let tmp := Hal.opVmp tmp aDft g.toPMat di
